@@ -63,6 +63,10 @@ func (s *ScanMethod) ProcessPacketData(data []byte, _ *gopacket.CaptureInfo) err
 	if len(s.rcvDecoded) != 2 {
 		return nil
 	}
+	// only IPv4 over Ethernet is valid: 6-byte hardware and 4-byte protocol addresses
+	if len(s.rcvARP.SourceHwAddress) != 6 || len(s.rcvARP.SourceProtAddress) != 4 {
+		return nil
+	}
 
 	copy(s.rcvMacPrefix[:], s.rcvARP.SourceHwAddress[:3])
 	hwVendor := macs.ValidMACPrefixMap[s.rcvMacPrefix]
